@@ -9,7 +9,9 @@
 (* Receiver: the reassembly context (k, n, what the buffer holds) and the  *)
 (* arrivals the property quantifies over: next piece, restart (k = 1),     *)
 (* wrong total, duplicate, illegal index (k = 0, n = 0, k > n), foreign    *)
-(* instance, unparsable fragment, and whole messages in between.           *)
+(* instance (the peer's fragment for another of our instances; a stranger's *)
+(* fragment for us), unparsable fragment, and whole messages in between;    *)
+(* under v3 also which peer instance the conversation is bound to.          *)
 (***************************************************************************)
 EXTENDS Integers, Sequences, FiniteSets, TLC, Json
 
@@ -48,17 +50,19 @@ Msgs == {"M", "N"}
 
 Arrivals ==
   [t : {"piece"}, m : Msgs, k : 1..3] \cup [t : {"wrongtotal"}, m : Msgs, k : 1..3]
-  \cup [t : {"zero", "nzero", "beyond", "foreign", "garbage", "whole"}, m : {"M"}, k : {1}]
+  \cup [t : {"zero", "nzero", "beyond", "foreign", "stranger", "garbage", "whole"}, m : {"M"}, k : {1}]
 
 VARIABLES k, n,      \* reassembly context: index and total (0, 0 = empty)
           buf,       \* which pieces the buffer holds: sequence of <<message, index>>
           processed, \* what was handed to message processing: "M", "N", "W" (whole) or "X" (a mixture)
           count,     \* arrivals so far
+          bound,     \* (v3) the peer instance the conversation is bound to: 0 none yet, 1 the peer, 2 a stranger
+          bound0,    \* its initial value (for the replay)
           path
 
-vars == <<k, n, buf, processed, count, path>>
+vars == <<k, n, buf, processed, count, bound, bound0, path>>
 
-Init == k = 0 /\ n = 0 /\ buf = <<>> /\ processed = <<>> /\ count = 0 /\ path = <<>>
+Init == k = 0 /\ n = 0 /\ buf = <<>> /\ processed = <<>> /\ count = 0 /\ path = <<>> /\ bound \in {0, 1} /\ bound0 = bound
 
 Assembled(b) == IF \E m \in Msgs : b = [i \in 1..Total(m) |-> <<m, i>>]
                 THEN (CHOOSE m \in Msgs : b = [i \in 1..Total(m) |-> <<m, i>>]) ELSE "X"
@@ -74,25 +78,35 @@ Arrive(a) ==
   /\ count < MaxArrivals
   /\ count' = count + 1
   /\ path' = IF Export THEN Append(path, a) ELSE path
-  /\ CASE a.t \in {"foreign", "garbage"} -> UNCHANGED <<k, n, buf, processed>>
-       [] a.t = "whole" -> /\ k' = 0 /\ n' = 0 /\ buf' = <<>>
+  /\ bound0' = bound0
+  /\ CASE a.t \in {"foreign", "garbage"} -> UNCHANGED <<k, n, buf, processed, bound>>
+       \* a fragment of the peer's, addressed to another of our instances ("foreign"), is nothing to us:
+       \* it does not even tell us who our peer is
+       [] a.t = "whole" -> /\ k' = 0 /\ n' = 0 /\ buf' = <<>> /\ bound' = bound
                            /\ processed' = Append(processed, "W")
+       \* a fragment (2 of 3) from another instance than the one we are bound to is ignored; while we are
+       \* not bound it is the first we hear and binds us (the protocol has no other way to learn the peer)
+       [] a.t = "stranger" ->
+            IF bound = 1 THEN UNCHANGED <<k, n, buf, processed, bound>>
+            ELSE /\ bound' = 2 /\ k' = 0 /\ n' = 0 /\ buf' = <<>> /\ UNCHANGED processed
+       [] bound = 2 -> UNCHANGED <<k, n, buf, processed, bound>>      \* the peer is not who we are bound to
        [] OTHER ->
-            LET kk == CASE a.t = "zero" -> 0 [] a.t = "beyond" -> 4 [] OTHER -> a.k
-                nn == CASE a.t = "nzero" -> 0 [] a.t = "beyond" -> 3 [] a.t = "wrongtotal" -> Total(a.m) + 2 [] OTHER -> Total(a.m)
-                c == Step(kk, nn, <<a.m, a.k>>)
-            IN IF c.k > 0 /\ c.k = c.n
-               THEN /\ processed' = Append(processed, Assembled(c.buf))
-                    /\ k' = 0 /\ n' = 0 /\ buf' = <<>>
-               ELSE /\ k' = c.k /\ n' = c.n /\ buf' = c.buf
-                    /\ UNCHANGED processed
+            /\ bound' = 1
+            /\ LET kk == CASE a.t = "zero" -> 0 [] a.t = "beyond" -> 4 [] OTHER -> a.k
+                   nn == CASE a.t = "nzero" -> 0 [] a.t = "beyond" -> 3 [] a.t = "wrongtotal" -> Total(a.m) + 2 [] OTHER -> Total(a.m)
+                   c == Step(kk, nn, <<a.m, a.k>>)
+               IN IF c.k > 0 /\ c.k = c.n
+                  THEN /\ processed' = Append(processed, Assembled(c.buf))
+                       /\ k' = 0 /\ n' = 0 /\ buf' = <<>>
+                  ELSE /\ k' = c.k /\ n' = c.n /\ buf' = c.buf
+                       /\ UNCHANGED processed
 
 Next == \E a \in Arrivals : (a.t # "piece" \/ a.k <= Total(a.m)) /\ (a.t # "wrongtotal" \/ a.k <= Total(a.m)) /\ Arrive(a)
 
 Spec == Init /\ [][Next]_vars
 
-view == <<k, n, buf, processed, count>>
-Emit == Export => PrintT(<<"FRAGSCHED", ToJson([steps |-> path', k |-> k', n |-> n', processed |-> processed'])>>)
+view == <<k, n, buf, processed, count, bound, bound0>>
+Emit == Export => PrintT(<<"FRAGSCHED", ToJson([steps |-> path', k |-> k', n |-> n', processed |-> processed', bound |-> bound', bound0 |-> bound0'])>>)
 
 \* Only completely and correctly reassembled messages are processed
 OnlyComplete == \A i \in DOMAIN processed : processed[i] # "X"
